@@ -252,7 +252,7 @@ SPEC = Property(
           "polling-fallback flag. Non-trivial: a reconnect while something is subscribed, a burst of >=2 messages, or a raising listener."),
     layers=[
         Layer("fixed-shapes", run_case, enumerate=enum_fixed, exhaustive=True, space="5 unparsable body kinds x 2 frames; FIN/reset x 4 frames", min_nontrivial=10),
-        Layer("generated", run_case, strategy=histories, n={"quick": 2500, "thorough": 60000}, min_nontrivial=500),
+        Layer("generated", run_case, strategy=histories, n={"quick": 12000, "thorough": 150000}, min_nontrivial=500),
     ],
     assumptions=["valid JSON that is not an object is not generated as an event body",
                  "listener order within one event is not constrained (listeners are kept in a set); per-listener order is",
